@@ -5,7 +5,7 @@ EXTENDS FjallStore, Json
 
 \* everything except the action label
 View == <<seqno, visible, nextId, kmap, meta, dirs, lsm, old, zombie, held, journals, jmgr,
-          flushq, views, trk, filt, ref, frozen, taint, ing, kf, everDel,
+          flushq, views, trk, filt, ref, frozen, taint, mtaint, ing, kf, everDel,
           nops, nreopen, nmaint, nviews>>
 
 KsProj(n) ==
@@ -14,7 +14,9 @@ KsProj(n) ==
      point   |-> [k \in Keys |-> PointRead(id, k, Inf)],
      scan    |-> [k \in Keys |-> ScanRead(id, k, Inf)],
      ref     |-> [k \in Keys |-> ref[n][k]],
-     tainted |-> id \in taint,
+     tainted |-> id \in taint \cup mtaint,
+     \* would a recovery from the current durable state be affected by finding D1D2
+     ctaint  |-> id \in Rec.tnt \cup MayReplayOverIngested(journals, Rec.known),
      \* every value some source holds for the key (what a structure-dependent read can return)
      cand    |-> [k \in Keys |-> {e.v : e \in {x \in UnionSeq(Sources(lsm[id])) : x.k = k}}],
      sealed  |-> Len(lsm[id].sl),
@@ -26,7 +28,7 @@ ViewProj(w) ==
                 [point  |-> [k \in Keys |-> PointRead(kmap[n], k, w.inst)],
                  scan   |-> [k \in Keys |-> ScanRead(kmap[n], k, w.inst)],
                  frozen |-> [k \in Keys |-> frozen[w.vid][n][k]],
-                 tainted |-> kmap[n] \in taint]]]
+                 tainted |-> kmap[n] \in taint \cup mtaint]]]
 
 Projection ==
     [ks      |-> [n \in LiveNames |-> KsProj(n)],
@@ -35,6 +37,7 @@ Projection ==
      jcount  |-> Len(journals),
      flushq  |-> Len(flushq),
      openviews |-> Cardinality(views),
+     d15 |-> FindingD15,
      seqnoAboveJournal |-> SeqnoAboveJournal,
      seqnoAboveEntries |-> SeqnoAboveEntries]
 
